@@ -460,6 +460,24 @@ def accept_correspondence(ctx, base):
         except Exception as e:  # noqa: BLE001
             res = ("ENGINE", type(e).__name__)
             coins = []
+        if res[0] == "REFUSED":
+            # the default number of shots (repeated-execution branch for collapse / noise entries) and the
+            # Clifford(circuit) constructor must refuse in the same way
+            for how in ("nshots", "Clifford"):
+                try:
+                    c3 = base.build(n, [clone(g) for g in gs])
+                    if how == "nshots":
+                        be.execute_circuit(c3, initial_state=None if init is None else np.array(init, copy=True))
+                    else:
+                        from qibo.quantum_info.clifford import Clifford
+
+                        Clifford(c3, engine="numpy")
+                    res = ("DONE", f"accepted-by-{how}", "")
+                except RuntimeError as e:
+                    if REFUSAL_MSG not in str(e):
+                        res = ("ENGINE", type(e).__name__)
+                except Exception as e:  # noqa: BLE001
+                    res = ("ENGINE", type(e).__name__)
         items = [item_of(g) for g in gs]
         lines.append(f"EX {n} {0 if init is None else 1} {'' if init is None else base.tab_tokens(init)} {len(items)} " + " ".join(items) + f" {len(coins)} " + " ".join(map(str, coins)))
         real.append(res)
